@@ -7,7 +7,7 @@ RULE = (
     "every combination of 18 item delimiters (, ; tab | blank : ' \" \\ a 1 # ~ ae CR LF FF euro) x the 20 permitted quote characters x "
     "2 escape characters x 2 quoting modes x 4 line delimiters is offered to Cid.read; for each accepted format tables "
     "of 0-5 rows x 1-4 columns over an alphabet made of that format's delimiter, quote, escape, blank, LF, CR, CRLF, the "
-    "empty string and two letters are written with DelimitedRowWriter and read back with delimited_rows (through streams and, for a third of the formats, through real files), and (every 4th "
+    "empty string and two letters (plus, for every 97th format, cells of 131073-200001 characters) are written with DelimitedRowWriter and read back with delimited_rows (through streams and, for a third of the formats, through real files), and (every 4th "
     "table) written with cutplace.Writer and read with cutplace.rows under an all-Text CID. The oracle is the round trip "
     "itself (identical table). A case is (format tuple, table), distinct by digest, non-trivial when the table contains a "
     "configured special character. Formats refused by the loader are counted, not judged (C11 owns them)."
@@ -55,11 +55,11 @@ def gen_table(rng, fmt):
     return ncols, table
 
 
-def check(ctx, fmt, ncols, table, via_validating_api, via_file=False):
+def check(ctx, fmt, ncols, table, via_validating_api, via_file=False, label=None):
     import cutplace
     from cutplace import errors, interface, rowio
 
-    case = {"format": list(fmt), "ncols": ncols, "table": table, "api": "Writer/rows" if via_validating_api else ("rowio-file" if via_file else "rowio")}
+    case = {"format": list(fmt), "ncols": ncols, "table": table if label is None else label, "api": "Writer/rows" if via_validating_api else ("rowio-file" if via_file else "rowio")}
     cid = interface.Cid()
     try:
         cid.read("<c12>", cid_rows(fmt, ncols))
@@ -98,15 +98,18 @@ def check(ctx, fmt, ncols, table, via_validating_api, via_file=False):
             back = list(rowio.delimited_rows(io.StringIO(text, newline=""), data_format))
     except Exception as error:
         key = "C12:roundtrip-error:%s" % type(error).__name__
+        if label:
+            key += ":" + label
         if fmt[0] == fmt[2]:
             key = "C12:delimiter-equals-escape"
-        ctx.violation(key, case, "writing and reading back failed", expected=table, observed=error)
+        ctx.violation(key, case, "writing and reading back failed", expected=table if label is None else label, observed=error)
         return True
     if back != table:
         key = "C12:roundtrip-differs"
         if fmt[0] == fmt[2]:
             key = "C12:delimiter-equals-escape"
-        ctx.violation(key, case, "table read back differs from the table written", expected=table, observed={"text": text, "back": back})
+        ctx.violation(key, case, "table read back differs from the table written", expected=table if label is None else label,
+                      observed={"text": text, "back": back} if label is None else {"cell lengths": [[len(c) for c in r] for r in back]})
     return True
 
 
@@ -119,6 +122,12 @@ def run(ctx):
             continue
         rng = ctx.rng("fmt", index)
         ctx.count("formats.offered")
+        if index % 97 == 0:
+            # a few very long cells (beyond the 131072 characters Python's csv module reads by default)
+            big = [["x" * 131073, "y"], [fmt[1] * 70000, "z" * 200000 + "\n"]]
+            ctx.count("tables.with-very-long-cells")
+            if not check(ctx, fmt, 2, big, via_validating_api=False, via_file=(index % 2 == 0), label="very-long-cells"):
+                continue
         for t in range(per_format):
             ncols, table = gen_table(rng, fmt)
             if not check(ctx, fmt, ncols, table, via_validating_api=(t % 4 == 1), via_file=(t % 4 == 0 and index % 3 == 0)):
@@ -128,4 +137,8 @@ def run(ctx):
 
 
 def replay(ctx, case):
+    if case["table"] == "very-long-cells":
+        fmt = tuple(case["format"])
+        check(ctx, fmt, 2, [["x" * 131073, "y"], [fmt[1] * 70000, "z" * 200000 + "\n"]], False, case["api"] == "rowio-file", label="very-long-cells")
+        return
     check(ctx, tuple(case["format"]), case["ncols"], case["table"], case["api"] == "Writer/rows", case["api"] == "rowio-file")
